@@ -6,6 +6,11 @@ reported to the task whose buffer it was written into.  The read waiter may have
 
 
 def register(R):
+    _register(R)
+    register_receive(R)
+
+
+def _register(R):
     R.module("verif-stubs/async_backend.py")
     R.shape("FutureModel", cls="Future", fields={"pending": "bool", "exception_set": "bool", "result_set": "bool", "owner": "none", "member": "bool", "cb": "none", "value": "opt[int]"})
     R.module("easynetwork/lowlevel/api_async/backend/_asyncio/stream/socket.py")
@@ -63,8 +68,9 @@ def register(R):
                   ("hence-no-caller-buffer-is-registered", "isnone(self.__external_buffer_view)")],
         ensures=taken_back + [
             ("a-byte-count-is-returned-only-for-bytes-written-into-the-caller's-buffer", "implies(not isnone(result), not isnone(external_buffer))", "C10"),
+            ("written-count-in-range", "0 <= self.__buffer_nbytes_written and implies(not isnone(self.__buffer), self.__buffer_nbytes_written <= len(self.__buffer))", "C10"),
         ],
-        raises={"BaseException": taken_back},
+        raises={"BaseException": taken_back + [("written-count-in-range", "0 <= self.__buffer_nbytes_written and implies(not isnone(self.__buffer), self.__buffer_nbytes_written <= len(self.__buffer))", "C10")]},
         modifies=[W, "self.__external_buffer_view", "self.__buffer_nbytes_written", "self.__eof_reached", "self.__connection_lost", "self.__read_paused",
                   "self.__transport", "self.__connection_lost_exception", "self.__connection_lost_exception_tb"],
         env={
@@ -74,6 +80,7 @@ def register(R):
             "rely_inv": ["implies(isnone(pre(self.__external_buffer_view)), isnone(self.__external_buffer_view))",
                          f"implies(not pre({W}.pending), not {W}.pending)",
                          "self.__buffer_nbytes_written >= 0",
+                         "implies(not isnone(self.__buffer), self.__buffer_nbytes_written <= len(self.__buffer))",  # get_buffer() hands out the free region only
                          "implies(self.__read_paused, self.__buffer_nbytes_written > self.__read_low_water)",
                          # buffer_updated() hands the caller's buffer back before it stores the byte count (its own contract)
                          f"implies(not isnone({W}.value) and isnone(pre({W}.value)), isnone(self.__external_buffer_view))",
@@ -81,4 +88,48 @@ def register(R):
                          f"implies(not isnone({W}.value), not isnone(pre({W}.value)) or not isnone(pre(self.__external_buffer_view)))"],
         },
         tags="C10",
+    )
+
+
+def register_receive(R):
+    """receive_data_into / receive_data: the bytes pending in the internal buffer when the wait ends (ghost P1, captured right
+    after `_wait_for_data` returned) are split between the caller and the internal buffer without loss, duplication or reordering."""
+    R.module("easynetwork/lowlevel/api_async/backend/_asyncio/stream/socket.py")
+    R.inline_fn("StreamReaderBufferedProtocol._maybe_resume_transport")
+    n = "self.__buffer_nbytes_written"
+    PEND = f"self.__buffer[:{n}]"
+    R.contract(
+        "StreamReaderBufferedProtocol.receive_data_into", self_shape="StreamReaderBufferedProtocolR",
+        params={"buffer": "view"}, result="int",
+        requires=[("no-other-receive-is-pending", "isnone(self.__read_waiter) and isnone(self.__external_buffer_view)"),
+                  ("internal-buffer-exists", "not isnone(self.__buffer)"), ("byte-view", "view_lo(buffer) >= 0")],
+        ensures=[
+            ("pending-bytes-are-split-between-the-caller-and-the-internal-buffer-without-loss-or-reordering",
+             f"implies(bound('P1'), ((buffer[:val(result)] + {PEND} == P1 and (val(result) == len(P1) or val(result) == len(buffer))) or ({PEND} == P1 and not isnone(WAITED))))", "C03 C10"),
+            ("count-in-range", "implies(bound('WAITED') and isnone(WAITED), 0 <= val(result) and val(result) <= len(buffer))", "C03"),
+        ],
+        raises={"BaseException": [("a-failed-or-cancelled-receive-leaves-the-pending-bytes-where-they-are", f"implies(bound('P1'), {PEND} == P1)", "C10")]},
+        modifies=["buffer", "self.__buffer.data", n, "self.__read_waiter", "self.__external_buffer_view", "self.__eof_reached", "self.__connection_lost", "self.__read_paused",
+                  "self.__transport", "self.__connection_lost_exception", "self.__connection_lost_exception_tb"],
+        env={"ghost_capture": {"_wait_for_data": {"P1": PEND, "WAITED": "result"}}},
+        tags="C03 C10",
+    )
+    R.contract(
+        "StreamReaderBufferedProtocol.receive_data", self_shape="StreamReaderBufferedProtocolR",
+        params={"bufsize": "int"}, result="bytes",
+        requires=[("no-other-receive-is-pending", "isnone(self.__read_waiter) and isnone(self.__external_buffer_view)"),
+                  ("internal-buffer-exists", "not isnone(self.__buffer)")],
+        ensures=[
+            ("pending-bytes-are-split-between-the-caller-and-the-internal-buffer-without-loss-or-reordering",
+             f"implies(bound('P1'), result + {PEND} == P1 and (len(result) == len(P1) or len(result) == bufsize))", "C03 C10"),
+            ("at-most-bufsize", "len(result) <= bufsize or bufsize < 0", "C03"),
+        ],
+        raises={"ValueError": [("negative-size-rejected-before-anything-happens", "bufsize < 0")],
+                "BaseException": [("a-failed-or-cancelled-receive-leaves-the-pending-bytes-where-they-are", f"implies(bound('P1'), {PEND} == P1)", "C10")]},
+        modifies=["self.__buffer.data", n, "self.__read_waiter", "self.__external_buffer_view", "self.__eof_reached", "self.__connection_lost", "self.__read_paused",
+                  "self.__transport", "self.__connection_lost_exception", "self.__connection_lost_exception_tb"],
+        env={"ghost_capture": {"_wait_for_data": {"P1": PEND}},
+             # listed assumption: waiting for data fails with connection errors, RuntimeError (concurrent use) or cancellation - never ValueError
+             "callee_raise_filter": {"StreamReaderBufferedProtocol._wait_for_data": "not typeof(exc, 'ValueError')"}},
+        tags="C03 C10",
     )
